@@ -151,6 +151,9 @@ def inconsistent_lengths(ctx, frame_try, thorough):
                     datas = [spec_try.sub_header(mid, 0, stride, n) + recs + surplus,                    # bytes behind the announced records
                              spec_try.sub_header(mid, 0, stride - 2, n) + recs,                          # the repeat length lost a bit
                              spec_try.sub_header(mid, 0, stride, n - 1) + recs if n > 1 else spec_try.sub_header(mid, 0, stride, n) + recs + bytes(3)]
+                if gen == 5:
+                    datas.append(spec_try.sub_header(mid, 0, 0, n))                 # n records of length 0 announced, nothing behind the sub-header
+                    datas.append(spec_try.sub_header(mid, 0, 0, n) + bytes(2))
                 for d in datas:
                     cases.append((key, d, real.raw_frame(mid if gen == 4 else 0xC0, d)))
         verdicts = ctx.oracle(["spec %d %s %s" % (k[0], k[1], spec_try.hx(d)) for k, d, _ in cases])
